@@ -58,11 +58,19 @@ C.update({
    note="Trusted: hooks H1/H1b (points around singleflight's locks, controllable spawn with tokio's task contract); tokio's Notify/Mutex run unmodified; free-running pass on real runtimes is informational.", ref="4/C20"),
 })
 
+C.update({
+ "C16":dict(lab="lab_inject",cat="fault_enumeration",tech="exhaustive enumeration of environment answers (completion order of gated store calls x which calls fail, up to a failure budget) on a single-threaded runtime around an injected validating store",
+   text="For 6 (quick) / 12 (thorough) base scenarios x 3-5 configurations (MAX_CONCURRENT_UPLOADS 1..3, one or several shards): every sequence of {issue next driver op, release pending put/upload_shard j as success, as failure} with at most 0,1 (quick) / 0,1,2,all (thorough) failures. From the store's call log: no upload_shard starts before every xorb its file records name has a successful completed put; any failed store call makes some add_data/finish/finalize return Err; all-Ok sessions reconstruct byte-identically from the store; no hang, no panic.",
+   note="Trusted: hooks H3/H4 (external Client, new_with_client); the driver stops at the first Err like in-repo callers; quiescence detection by yields is validated by re-running 1 in 16 executions.", ref="4/C16"),
+})
+C["C14"]["text"]+=" The exact equations xorb_bytes_uploaded = sum of put results and shard_bytes_uploaded = shard bytes handed over are decided by the injected driver (second command, evidence/C14x.json) over every completion order of the gated store calls."
+
 checks=[]
 for p in props:
     if p in C:
         c=C[p]
-        checks.append({"property_id":p,"quick_cmd":f"./check {p} --tier quick","thorough_cmd":f"./check {p} --tier thorough",
+        x2 = " && ./check C14x --tier {t}" if p=="C14" else ""
+        checks.append({"property_id":p,"quick_cmd":f"./check {p} --tier quick"+x2.format(t="quick"),"thorough_cmd":f"./check {p} --tier thorough"+x2.format(t="thorough"),
           "evidence_file":f"/verif/evidence/{p}.json","replay_cmd_template":f"./check {p} --replay {{path}}","engine":c["lab"],
           "level_claimed":{"category":c["cat"],"text":c["text"],"design_ref":"DESIGN.md section "+c["ref"]},
           "level_note":c["note"],"technique":c["tech"]})
